@@ -1,2 +1,3 @@
+@property
 def spec(self):
     return bool(self.__owner()) and self._ignore_or_compatible(self.__data, self.__constraints, self.__strict)
